@@ -13,6 +13,8 @@ from ir2c import (IntT, PtrT, ArrT, StructT, VoidT, FloatT, NamedT, FuncT, res, 
 class Unsupported(Exception): pass
 class PathAbort(Exception):  # assume(false)-like: path silently dropped
     pass
+class ProgramExit(Exception):
+    def __init__(s, code): s.code = code
 class Violation(Exception):
     def __init__(s, kind, msg): s.kind = kind; s.msg = msg; Exception.__init__(s, kind + ': ' + msg)
 
@@ -345,6 +347,8 @@ class Engine:
                 pass
             except Violation as v:
                 st.result = ('violation', v.kind, v.msg); done.append(st)
+            except ProgramExit as x:
+                st.result = ('exit', x.code); done.append(st)
             s.total_steps += st.steps - getattr(st, 'steps0', 0)
         return done
 
@@ -837,6 +841,8 @@ def install_std_stubs(E):
     S['_ZSt9terminatev'] = terminate
     def assert_fail(E, st, fr, I, A): raise Violation('assert', 'assert() failed in code under test (%s)' % fr.fn['name'])
     S['__assert_fail'] = assert_fail
+    def _exit(E, st, fr, I, A): raise ProgramExit(A[0] if not is_sym(A[0]) else -1)
+    S['exit'] = _exit; S['_exit'] = _exit
     S['abort'] = lambda E, st, fr, I, A: (_ for _ in ()).throw(Violation('abort', 'abort() called'))
     def mk_thrower(ti):
         def h(E, st, fr, I, A):
